@@ -98,6 +98,17 @@ CHECKS['C13'] = ('model_checking', 'explore',
     'asyncio FIFO semantics; asyncio.wait result order owned by the explorer; K<=3, T<=2.',
     '5/C13')
 
+CHECKS['C14'] = ('model_checking', 'statespace',
+    'explicit-state BFS over operation histories of the real SQLite URL table (state = database '
+    'image, reopened on every transition) against a dict reference model',
+    'All operation histories up to depth 3 (quick) / 5 (thorough) over a 31-operation alphabet on '
+    '3 URLs + an absent one are applied to the real URLTableHookWrapper(SQLiteURLTable); after '
+    'every step the return value and the full table contents must equal the reference model, '
+    'also after close+reopen; states are deduplicated by a rank-normalised dump of all tables, '
+    'and merged states are checked to have identical futures.',
+    'check_out order unspecified (model follows the implementation); SQLAlchemy 2.0 with the '
+    'select([...]) shim; SQLite atomic commit trusted.', '5/C14')
+
 NOT_YET = {}
 
 
